@@ -528,7 +528,7 @@ static void c15Text(int maxLen, unsigned shard, unsigned shards) {
                 fail("c15.text", what + " threw something not derived from std::exception on \"" + visible(content) + "\"", replay);
             }
         };
-        attempt("loadTextEdgeList<Directed,NoLabel>", [&] { auto r = io::loadTextEdgeList<LabeledDirectedGraph, NoLabel>(file); if (r.first.getSize() > 1000) fail("c15.text", "graph with " + std::to_string(r.first.getSize()) + " vertices from \"" + visible(content) + "\"", replay); });
+        attempt("loadTextEdgeList<Directed,NoLabel>", [&] { (void)io::loadTextEdgeList<LabeledDirectedGraph, NoLabel>(file); });
         attempt("loadTextEdgeList<Undirected,NoLabel>", [&] { (void)io::loadTextEdgeList<LabeledUndirectedGraph, NoLabel>(file); });
         attempt("loadTextEdgeList<Directed,int>", [&] { (void)io::loadTextEdgeList<LabeledDirectedGraph, int>(file, std::function<int(const std::string &)>([](const std::string &s) { return std::stoi(s); })); });
         attempt("loadTextVertexLabeledEdgeList<Directed,NoLabel>", [&] { (void)io::loadTextVertexLabeledEdgeList<LabeledDirectedGraph, NoLabel>(file); });
